@@ -174,6 +174,26 @@ def aggregate(pid, tier, seed, mod, cases, metas, tails, problems, extra_info, t
             per_mech.setdefault(key, (v, r))
         nviol_cases += new
 
+    # M6 contracts: evaluations summed over shards; a broken contract owned by
+    # this property is a violation, others are shown only (their owner's check decides)
+    c_evals, c_foreign = {}, {}
+    for t in tails:
+        rep = t.get('contracts') or {}
+        for k, v in rep.get('evaluations', {}).items():
+            c_evals[k] = c_evals.get(k, 0) + v
+        for b in rep.get('broken', []):
+            if b['owner'] == pid:
+                v = {'what': 'contract:' + b['contract'], 'mech': {'contract': b['contract']},
+                     'detail': b['detail']}
+                if match_known(pid, v, known) is None:
+                    key = json.dumps([v['what'], v['mech']], sort_keys=True)
+                    fake = {'digest': 'contract', 'tier': tier, 'seed': seed, 'shard': t.get('shard', 0),
+                            'idx': -1, 'cls': 'contract', 'params': b['detail'], 'leg': None}
+                    per_mech.setdefault(key, (v, fake))
+            else:
+                c_foreign[b['contract']] = c_foreign.get(b['contract'], 0) + 1
+    nchecks += sum(c_evals.values())
+
     reach = {}
     for t in tails:
         for k, v in t.get('reach', {}).items():
@@ -250,6 +270,7 @@ def aggregate(pid, tier, seed, mod, cases, metas, tails, problems, extra_info, t
         'skipped': skipped,
         'max_deviation': {k: maxdev[k] for k in sorted(maxdev)},
         'notes': notes,
+        'contracts': {'evaluations': c_evals, 'broken_owned_elsewhere': c_foreign},
         'must_reach': must,
         'reach_anchor_functions': len(reach_anch),
         'reach_top': dict(sorted(reach_anch.items(), key=lambda kv: -kv[1])[:40]),
